@@ -83,7 +83,14 @@ def third_party_isolation_rules(fb, ctx):
     # the branch on "is this block third-party?": `if let Some(..) = &block.external_signature {A} else {B}`, a `match` on it, or
     # `if block.external_signature.is_none() {B}` / `.is_some() {A} else {B}` - tp_side / fp_side are the code run for a third-party /
     # first-party block
-    reads_ext = lambda e: bool(find_all(e, lambda z: z.get("k") == "field" and z.get("name") == "external_signature"))
+    def some_preserving(e):
+        """`block.external_signature[.as_ref()][.map(..)][.cloned()]`: Some exactly when the block carries an external signature"""
+        e = strip(e)
+        while isinstance(e, dict) and e.get("k") == "mcall" and e.get("name") in ("as_ref", "as_deref", "map", "cloned", "copied", "clone"):
+            e = strip(e["recv"])
+        return isinstance(e, dict) and e.get("k") == "field" and e.get("name") == "external_signature"
+    ext_ids = hirq.let_ids(loop, some_preserving)
+    reads_ext = lambda e: bool(find_all(e, lambda z: z.get("k") == "field" and z.get("name") == "external_signature")) or bool(find_all(e, lambda z: hirq.is_lid(z, ext_ids)))
     cands = []
     for n in find_all(loop, lambda n: n.get("k") == "if"):
         c = strip(n["cond"])
